@@ -98,4 +98,277 @@ example : decodeTy (fun _ => none)
     (shapeRepr (.tuple [.number true, .array (.tuple [.string false, .null] true) false] true))
     = some (.tuple [.number true, .array (.tuple [.string false, .null] true) false] true) := by decide
 
+/-! ### the definitions themselves -/
+
+/-- the definition generated for a named sub-shape -/
+def itemOfNamed : String × Shape → Option GItem
+  | (n, .object c _) => some (structOf n c)
+  | (n, .oneOf vs _) => some (enumOf n vs)
+  | _ => none
+
+theorem items_from_named_aux (n : Nat) :
+    ∀ s : Shape, sizeOf s ≤ n → ∀ (d : List String), ∀ it ∈ (createSubtype s d).1,
+      ∃ p ∈ namedSubshapes s, itemOfNamed p = some it := by
+  induction n with
+  | zero => intro s h; cases s <;> simp at h
+  | succ n ih =>
+    have ihL : ∀ l : List Shape, (∀ s ∈ l, sizeOf s ≤ n) → ∀ (d : List String),
+        ∀ it ∈ (createSubtypeList l d).1, ∃ p ∈ namedSubshapesList l, itemOfNamed p = some it := by
+      intro l
+      induction l with
+      | nil => intro _ d it hit; simp [createSubtypeList] at hit
+      | cons a l ihl =>
+        intro hs d it hit
+        simp only [createSubtypeList] at hit
+        simp only [namedSubshapesList, List.mem_append]
+        rcases List.mem_append.1 hit with hit | hit
+        · obtain ⟨p, hp, e⟩ := ih a (hs a (by simp)) d it hit
+          exact ⟨p, .inl hp, e⟩
+        · obtain ⟨p, hp, e⟩ := ihl (fun s h => hs s (by simp [h])) _ it hit
+          exact ⟨p, .inr hp, e⟩
+    have ihM : ∀ c : Members, (∀ kv ∈ c, sizeOf kv.2 ≤ n) → ∀ (d : List String),
+        ∀ it ∈ (createSubtypeMembers c d).1, ∃ p ∈ namedSubshapesMembers c, itemOfNamed p = some it := by
+      intro c
+      induction c with
+      | nil => intro _ d it hit; simp [createSubtypeMembers] at hit
+      | cons a c ihc =>
+        obtain ⟨k, v⟩ := a
+        intro hs d it hit
+        simp only [createSubtypeMembers] at hit
+        simp only [namedSubshapesMembers, List.mem_append]
+        rcases List.mem_append.1 hit with hit | hit
+        · obtain ⟨p, hp, e⟩ := ih v (hs (k, v) (by simp)) d it hit
+          exact ⟨p, .inl hp, e⟩
+        · obtain ⟨p, hp, e⟩ := ihc (fun kv h => hs kv (by simp [h])) _ it hit
+          exact ⟨p, .inr hp, e⟩
+    intro s hn d it hit
+    cases s with
+    | null => simp [createSubtype] at hit
+    | bool o => simp [createSubtype] at hit
+    | number o => simp [createSubtype] at hit
+    | string o => simp [createSubtype] at hit
+    | array t o =>
+      simp only [createSubtype] at hit
+      simpa [namedSubshapes] using ih t (by simp at hn; omega) d it hit
+    | tuple es o =>
+      simp only [createSubtype] at hit
+      simpa [namedSubshapes] using
+        ihL es (fun s hs => by have := List.sizeOf_lt_of_mem hs; simp at hn; omega) d it hit
+    | object c o =>
+      have hsz : ∀ kv ∈ c, sizeOf kv.2 ≤ n := by
+        intro kv hkv
+        have := List.sizeOf_lt_of_mem hkv
+        obtain ⟨k, v⟩ := kv
+        simp at this hn ⊢; omega
+      simp only [createSubtype] at hit
+      split at hit
+      · simp at hit
+      · simp only [namedSubshapes, List.mem_cons]
+        rcases List.mem_cons.1 hit with rfl | hit
+        · exact ⟨_, .inl rfl, rfl⟩
+        · obtain ⟨p, hp, e⟩ := ihM c hsz _ it hit
+          exact ⟨p, .inr hp, e⟩
+    | oneOf vs o =>
+      have hsz : ∀ v ∈ vs, sizeOf v ≤ n := by
+        intro v hv; have := List.sizeOf_lt_of_mem hv; simp at hn; omega
+      simp only [createSubtype] at hit
+      split at hit
+      · simp at hit
+      · simp only [namedSubshapes, List.mem_cons]
+        rcases List.mem_cons.1 hit with rfl | hit
+        · exact ⟨_, .inl rfl, rfl⟩
+        · obtain ⟨p, hp, e⟩ := ihL vs hsz _ it hit
+          exact ⟨p, .inr hp, e⟩
+
+/-- every struct/enum of the module is the definition of one of the shape's named sub-shapes -/
+theorem items_from_named (s : Shape) (d : List String) :
+    ∀ it ∈ (createSubtype s d).1, ∃ p ∈ namedSubshapes s, itemOfNamed p = some it :=
+  items_from_named_aux (sizeOf s) s (Nat.le_refl _) d
+
+/-- the named sub-shapes of a member / variant / element are named sub-shapes of the whole -/
+theorem named_of_member {c : Members} {k : String} {v : Shape} (h : (k, v) ∈ c) :
+    ∀ p ∈ namedSubshapes v, p ∈ namedSubshapesMembers c := by
+  induction c with
+  | nil => cases h
+  | cons a c ih =>
+    obtain ⟨k', v'⟩ := a
+    intro p hp
+    simp only [namedSubshapesMembers, List.mem_append]
+    rcases List.mem_cons.1 h with e | h
+    · cases e; exact .inl hp
+    · exact .inr (ih h p hp)
+
+theorem named_of_elem {l : List Shape} {v : Shape} (h : v ∈ l) :
+    ∀ p ∈ namedSubshapes v, p ∈ namedSubshapesList l := by
+  induction l with
+  | nil => cases h
+  | cons a l ih =>
+    intro p hp
+    simp only [namedSubshapesList, List.mem_append]
+    rcases List.mem_cons.1 h with rfl | h
+    · exact .inl hp
+    · exact .inr (ih h p hp)
+
+/-- sub-shapes of a named sub-shape are named sub-shapes of the whole shape -/
+theorem named_trans_aux (n : Nat) : ∀ s : Shape, sizeOf s ≤ n → ∀ q ∈ namedSubshapes s,
+    ∀ p ∈ namedSubshapes q.2, p ∈ namedSubshapes s := by
+  induction n with
+  | zero => intro s h; cases s <;> simp at h
+  | succ n ih =>
+    have ihL : ∀ l : List Shape, (∀ s ∈ l, sizeOf s ≤ n) → ∀ q ∈ namedSubshapesList l,
+        ∀ p ∈ namedSubshapes q.2, p ∈ namedSubshapesList l := by
+      intro l
+      induction l with
+      | nil => intro _ q hq; simp [namedSubshapesList] at hq
+      | cons a l ihl =>
+        intro hs q hq p hp
+        simp only [namedSubshapesList, List.mem_append] at hq ⊢
+        rcases hq with hq | hq
+        · exact .inl (ih a (hs a (by simp)) q hq p hp)
+        · exact .inr (ihl (fun s h => hs s (by simp [h])) q hq p hp)
+    have ihM : ∀ c : Members, (∀ kv ∈ c, sizeOf kv.2 ≤ n) → ∀ q ∈ namedSubshapesMembers c,
+        ∀ p ∈ namedSubshapes q.2, p ∈ namedSubshapesMembers c := by
+      intro c
+      induction c with
+      | nil => intro _ q hq; simp [namedSubshapesMembers] at hq
+      | cons a c ihc =>
+        obtain ⟨k, v⟩ := a
+        intro hs q hq p hp
+        simp only [namedSubshapesMembers, List.mem_append] at hq ⊢
+        rcases hq with hq | hq
+        · exact .inl (ih v (hs (k, v) (by simp)) q hq p hp)
+        · exact .inr (ihc (fun kv h => hs kv (by simp [h])) q hq p hp)
+    intro s hn q hq p hp
+    cases s with
+    | null => simp [namedSubshapes] at hq
+    | bool o => simp [namedSubshapes] at hq
+    | number o => simp [namedSubshapes] at hq
+    | string o => simp [namedSubshapes] at hq
+    | array t o =>
+      simp only [namedSubshapes] at hq ⊢
+      exact ih t (by simp at hn; omega) q hq p hp
+    | tuple es o =>
+      simp only [namedSubshapes] at hq ⊢
+      exact ihL es (fun s hs => by have := List.sizeOf_lt_of_mem hs; simp at hn; omega) q hq p hp
+    | object c o =>
+      have hsz : ∀ kv ∈ c, sizeOf kv.2 ≤ n := by
+        intro kv hkv
+        have := List.sizeOf_lt_of_mem hkv
+        obtain ⟨k, v⟩ := kv
+        simp at this hn ⊢; omega
+      simp only [namedSubshapes, List.mem_cons] at hq ⊢
+      rcases hq with rfl | hq
+      · simpa [namedSubshapes] using hp
+      · exact .inr (ihM c hsz q hq p hp)
+    | oneOf vs o =>
+      have hsz : ∀ v ∈ vs, sizeOf v ≤ n := by
+        intro v hv; have := List.sizeOf_lt_of_mem hv; simp at hn; omega
+      simp only [namedSubshapes, List.mem_cons] at hq ⊢
+      rcases hq with rfl | hq
+      · simpa [namedSubshapes] using hp
+      · exact .inr (ihL vs hsz q hq p hp)
+
+theorem named_trans (s : Shape) : ∀ q ∈ namedSubshapes s, ∀ p ∈ namedSubshapes q.2, p ∈ namedSubshapes s :=
+  named_trans_aux (sizeOf s) s (Nat.le_refl _)
+
+theorem decodeTys_members (env : String → Option Shape) : ∀ (c : Members),
+    (∀ kv ∈ c, Resolves env kv.2) → decodeTys env (c.map fun kv => shapeRepr kv.2) = some (c.map (·.2))
+  | [], _ => rfl
+  | (k, v) :: c, h => by
+    simp only [List.map_cons, decodeTys, repr_decodes env v (h (k, v) (by simp)),
+      decodeTys_members env c (fun kv hkv => h kv (by simp [hkv]))]
+
+theorem decodeTys_list (env : String → Option Shape) : ∀ (l : List Shape),
+    (∀ v ∈ l, Resolves env v) → decodeTys env (l.map shapeRepr) = some l
+  | [], _ => rfl
+  | v :: l, h => by
+    simp only [List.map_cons, decodeTys, repr_decodes env v (h v (by simp)),
+      decodeTys_list env l (fun w hw => h w (by simp [hw]))]
+
+/-- **the definitions mirror the shape**: under a resolver that maps every type name of the module to
+the sub-shape it was generated for (it exists exactly when names do not clash — known finding D16),
+every struct of the module has one field per member of its object shape, named by the snake form of
+the member name and typed so that it reads back as the member's shape, in order; every enum has one
+single-field variant per variant shape, reading back as that variant, in order. -/
+theorem definitions_mirror (s : Shape) (env : String → Option Shape) (hr : Resolves env s) (d : List String) :
+    ∀ it ∈ (createSubtype s d).1,
+      (∀ n fs, it = .struct_ n fs → ∃ c o, (n, Shape.object c o) ∈ namedSubshapes s ∧
+          fs.map (·.1) = c.map (fun kv => String.ofList (toSnake kv.1.toList)) ∧
+          decodeTys env (fs.map (·.2)) = some (c.map (·.2))) ∧
+      (∀ n vs', it = .enum_ n vs' → ∃ vs o, (n, Shape.oneOf vs o) ∈ namedSubshapes s ∧
+          decodeTys env (vs'.map (·.2)) = some vs) := by
+  intro it hit
+  obtain ⟨p, hp, hpi⟩ := items_from_named s d it hit
+  obtain ⟨n, sub⟩ := p
+  have hsub : Resolves env sub := fun q hq => hr q (named_trans s (n, sub) hp q hq)
+  cases sub with
+  | object c o =>
+    simp only [itemOfNamed, Option.some.injEq] at hpi
+    subst hpi
+    refine ⟨?_, by intro n' vs' h; simp [structOf] at h⟩
+    intro n' fs h
+    simp only [structOf, GItem.struct_.injEq] at h
+    obtain ⟨rfl, rfl⟩ := h
+    refine ⟨c, o, hp, by simp [List.map_map, Function.comp_def], ?_⟩
+    simp only [List.map_map, Function.comp_def]
+    exact decodeTys_members env c (fun kv hkv q hq => hsub q (by
+      simp only [namedSubshapes, List.mem_cons]
+      exact .inr (named_of_member (k := kv.1) (v := kv.2) (by simpa using hkv) q hq)))
+  | oneOf vs o =>
+    simp only [itemOfNamed, Option.some.injEq] at hpi
+    subst hpi
+    refine ⟨by intro n' fs h; simp [enumOf] at h, ?_⟩
+    intro n' vs' h
+    simp only [enumOf, GItem.enum_.injEq] at h
+    obtain ⟨rfl, rfl⟩ := h
+    refine ⟨vs, o, hp, ?_⟩
+    simp only [List.map_map, Function.comp_def]
+    exact decodeTys_list env vs (fun v hv q hq => hsub q (by
+      simp only [namedSubshapes, List.mem_cons]
+      exact .inr (named_of_elem hv q hq)))
+  | null => simp [itemOfNamed] at hpi
+  | bool o => simp [itemOfNamed] at hpi
+  | number o => simp [itemOfNamed] at hpi
+  | string o => simp [itemOfNamed] at hpi
+  | array t o => simp [itemOfNamed] at hpi
+  | tuple es o => simp [itemOfNamed] at hpi
+
+/-- the resolver read off the shape: a type name stands for the first named sub-shape carrying it -/
+def envOf (s : Shape) : String → Option Shape :=
+  fun n => ((namedSubshapes s).find? (fun p => p.1 == n)).map (·.2.asNonOptional)
+
+/-- no two named sub-shapes with different structure share a type name (the complement of D16) -/
+def NoClash (s : Shape) : Prop :=
+  ∀ p ∈ namedSubshapes s, ∀ q ∈ namedSubshapes s, p.1 = q.1 → p.2.asNonOptional = q.2.asNonOptional
+
+theorem resolver_exists (s : Shape) (h : NoClash s) : Resolves (envOf s) s := by
+  intro p hp
+  unfold envOf
+  cases hf : (namedSubshapes s).find? (fun q => q.1 == p.1) with
+  | none =>
+    have := List.find?_eq_none.1 hf p hp
+    simp at this
+  | some q =>
+    have hq := List.mem_of_find?_eq_some hf
+    have hqe : q.1 = p.1 := by simpa using List.find?_some hf
+    simp only [Option.map_some]
+    rw [h q hq p hp hqe]
+
+/-- **C14 assembled**: when type names do not clash, the root type reads back as the inferred shape
+and every definition mirrors its sub-shape, all with respect to one resolver read off the shape -/
+theorem generated_types_mirror (s : Shape) (h : NoClash s) :
+    decodeTy (envOf s) (shapeRepr s) = some s ∧
+    ∀ it ∈ (createSubtype s []).1,
+      (∀ n fs, it = .struct_ n fs → ∃ c o, (n, Shape.object c o) ∈ namedSubshapes s ∧
+          fs.map (·.1) = c.map (fun kv => String.ofList (toSnake kv.1.toList)) ∧
+          decodeTys (envOf s) (fs.map (·.2)) = some (c.map (·.2))) ∧
+      (∀ n vs', it = .enum_ n vs' → ∃ vs o, (n, Shape.oneOf vs o) ∈ namedSubshapes s ∧
+          decodeTys (envOf s) (vs'.map (·.2)) = some vs) :=
+  ⟨repr_decodes _ s (resolver_exists s h), definitions_mirror s _ (resolver_exists s h) []⟩
+
+example : NoClash (.object [("a", .number false), ("b", .object [("c", .string true)] true)] false) := by
+  intro p hp q hq
+  simp [namedSubshapes, namedSubshapesMembers] at hp hq
+  rcases hp with rfl | rfl <;> rcases hq with rfl | rfl <;> simp [shapeName] <;> decide
+
 end ShapeVerif
